@@ -226,20 +226,22 @@ InitContents ==
         bt \in [KeySet(U) -> {0, 1}],
         l0 \in IF InitLayer THEN [KeySet(U) -> {None, Add(2), Upd(2), Del(1)}] ELSE {EmptyLayer(U)}}
 
+NoView == OverlayFor(U, EmptyBt(U))   \* value of iv while it is not used
+
 Init == /\ c \in {x \in InitContents : WellFormed(U, x)}
         /\ oi = NewOi
         /\ ref = NewRef(U)
         /\ rd = <<>> /\ req = {}
         /\ nextOff = 3
         /\ steps = 0
-        /\ frozen = FALSE /\ iv = c
+        /\ frozen = FALSE /\ iv = NoView
 
 Step == steps < MaxSteps /\ steps' = steps + 1
 Keep == UNCHANGED <<frozen, iv>>
 Quiet == rd' = <<>> /\ req' = {}
 
 \* a new Overlay object: the iterator will notice by pointer comparison
-NewObject == oi' = [oi EXCEPT !.stale = TRUE] /\ frozen' = FALSE /\ iv' = iv
+NewObject == oi' = [oi EXCEPT !.stale = TRUE] /\ frozen' = FALSE /\ iv' = NoView
 \* the mutable layer was modified: its iterator (the last) reports Modified
 MutTouched == oi' = IF ~oi.stale /\ Len(oi.its) > 0
                     THEN [oi EXCEPT !.its[Len(oi.its)].mod = TRUE] ELSE oi
@@ -275,9 +277,9 @@ CommitMoved(k) ==
     /\ nextOff' = nextOff + 1
     /\ IF InPlaceCommit
        THEN /\ oi' = oi
-            /\ frozen' = ~oi.stale /\ iv' = CommitOnto(U, c, c)
+            /\ frozen' = ~oi.stale /\ iv' = IF oi.stale THEN NoView ELSE CommitOnto(U, c, c)
        ELSE /\ oi' = [oi EXCEPT !.stale = TRUE]
-            /\ frozen' = FALSE /\ iv' = iv
+            /\ frozen' = FALSE /\ iv' = NoView
     /\ Quiet /\ UNCHANGED ref
 
 Merge(n) == /\ Step /\ ~c.hasMut /\ n < Len(c.layers)
